@@ -1,6 +1,7 @@
 package protocol
 
 import (
+	"sort"
 	"strings"
 
 	"github.com/pkg/errors"
@@ -163,7 +164,17 @@ func (md *Metadata) MarshalValues(max int) []byte {
 
 	var data []byte
 
-	for key, val := range md.Values {
+	// iterate in sorted key order: ranging over the map directly made the
+	// output (and which pairs survive a tight budget) vary between calls
+	keys := make([]string, 0, len(md.Values))
+	for key := range md.Values {
+		keys = append(keys, key)
+	}
+	sort.Strings(keys)
+
+	for _, key := range keys {
+		val := md.Values[key]
+
 		if key == "" {
 			continue
 		}
